@@ -327,3 +327,40 @@ def late_bound_closures(root):
                         out.append((c, v))
     return out
 
+
+
+def truth_tested(root):
+    """Expressions of `root` that are evaluated for their truth value, decomposed to the leaves: the tests of if / while / assert / conditional
+    expressions / comprehension filters, the operands of `not`, every operand of `and` / `or` (also where the result is used as a value:
+    `x or default` tests x) and the argument of bool().  Yields (leaf expression, enclosing statement or None)."""
+    pm = parent_map(root)
+
+    def stmt_of(n):
+        while n in pm and not isinstance(n, ast.stmt):
+            n = pm[n]
+        return n if isinstance(n, ast.stmt) else None
+
+    def leaves(e):
+        if isinstance(e, ast.UnaryOp) and isinstance(e.op, ast.Not):
+            return leaves(e.operand)
+        if isinstance(e, ast.BoolOp):
+            return [x for v in e.values for x in leaves(v)]
+        return [e]
+    seen = set()
+    for n in ast.walk(root):
+        tests = []
+        if isinstance(n, (ast.If, ast.While, ast.Assert, ast.IfExp)):
+            tests.append(n.test)
+        elif isinstance(n, ast.comprehension):
+            tests += n.ifs
+        elif isinstance(n, ast.UnaryOp) and isinstance(n.op, ast.Not):
+            tests.append(n.operand)
+        elif isinstance(n, ast.BoolOp):
+            tests += n.values
+        elif isinstance(n, ast.Call) and isinstance(n.func, ast.Name) and n.func.id == 'bool' and len(n.args) == 1:
+            tests.append(n.args[0])
+        for t in tests:
+            for leaf in leaves(t):
+                if id(leaf) not in seen:
+                    seen.add(id(leaf))
+                    yield leaf, stmt_of(leaf)
